@@ -43,6 +43,7 @@ fn main() {
             props::run_one_path(&suite, &hist, args.get(4).map(|s| s == "thorough").unwrap_or(false))
         }
         Some("smoke") => props::smoke(),
+        Some("golden-gen") => props::c10::generate(),
         Some("suite") => props::run_suite(
             args.get(2).map(|s| s.as_str()).unwrap_or(""),
             args.get(3).and_then(|s| s.parse().ok()).unwrap_or(3),
